@@ -2,11 +2,11 @@
 (* spec -> impl: every assignment of network actions (Conn's environment: deliver / drop / duplicate / delay / bit-flip /
    truncate) to the first K datagrams of each direction with at most F faults, as fault schedules for `vh-sim run`. *)
 EXTENDS Naturals, Sequences, FiniteSets, TLC, Json
-CONSTANTS K, F, Full
+CONSTANTS K, F, Full, Off     \* Off: index of the first datagram of each direction the schedule may touch
 VARIABLES sched, pos
-Slots == [d \in 1..(2 * K) |-> <<IF d <= K THEN "c2s" ELSE "s2c", IF d <= K THEN d - 1 ELSE d - K - 1>>]
-Fates == IF Full THEN {<<"drop">>, <<"dup">>, <<"delay", 40>>, <<"flip", 7>>, <<"flip", 85>>, <<"flip", 2400>>, <<"trunc", 20>>, <<"trunc", 600>>}
-         ELSE {<<"drop">>, <<"dup">>, <<"delay", 40>>, <<"flip", 7>>, <<"flip", 2400>>, <<"trunc", 20>>}
+Slots == [d \in 1..(2 * K) |-> <<IF d <= K THEN "c2s" ELSE "s2c", Off + (IF d <= K THEN d - 1 ELSE d - K - 1)>>]
+Fates == IF Full THEN {<<"drop">>, <<"dup">>, <<"delay", 40>>, <<"flip", 7>>, <<"flip", 85>>, <<"flip", 2400>>, <<"trunc", 20>>, <<"trunc", 24>>, <<"trunc", 600>>}
+         ELSE {<<"drop">>, <<"dup">>, <<"delay", 40>>, <<"flip", 7>>, <<"flip", 2400>>, <<"trunc", 20>>, <<"trunc", 24>>}
 GenInit == sched = <<>> /\ pos = 1
 NFaults == Len(sched)
 GenNext ==
